@@ -20,14 +20,25 @@ template<class T> struct Machine : IMachine {
   T val(const std::string& s) const { return static_cast<T>(static_cast<T>(toI(s)) / static_cast<T>(scale)); }
   std::string num(T v) const { std::ostringstream os; os << static_cast<long long>(v * static_cast<T>(scale)); return os.str(); }
   // the full observation of a collection through the RangeCollection interface:
-  //   <getRange(i).begin end>* ; totalLength ; size isEmpty ; <bounds>* ; toString
+  //   <getRange(i).begin end>* ; totalLength ; size isEmpty ; <bounds>* ; <shared cells> ; toString
   std::string show(const RangeCollection<T>& c, const std::string& bounds) const {
     std::string s;
     for (size_t i = 0; i < c.size(); ++i) { s += num(c.getRange(i).begin()) + " " + num(c.getRange(i).end()) + " "; }
     s += "; " + std::to_string(static_cast<unsigned long long>(c.totalLength()));
     s += " ; " + std::to_string(static_cast<unsigned long long>(c.size())) + " " + (c.isEmpty() ? "1" : "0");
-    s += " ; " + bounds + "; " + c.toString();
+    s += " ; " + bounds + "; " + std::to_string(sharedCells()) + " ; " + c.toString();
     return s;
+  }
+  // ownership (theorem copy_independent, predicate Sep): number of Range<T> cells that are reachable
+  // from two places (two collections, or twice from one); &getRange(i) is the owned pointer
+  size_t sharedCells() const {
+    std::vector<const Range<T>*> all;
+    for (const auto& m : mr) for (size_t i = 0; i < m->size(); ++i) all.push_back(&m->getRange(i));
+    for (const auto& r : rs) for (size_t i = 0; i < r->size(); ++i) all.push_back(&r->getRange(i));
+    std::sort(all.begin(), all.end());
+    size_t n = 0;
+    for (size_t i = 1; i < all.size(); ++i) if (all[i] == all[i - 1]) ++n;
+    return n;
   }
   std::string showMr(size_t k) const {
     std::string b; for (T v : mr[k]->getBounds()) b += num(v) + " ";
